@@ -21,3 +21,17 @@ Theorem C08_loop_before_the_repair_refuted :
                       (fun s sm => (s, sm)) (fun s _ => s) true l) 0 <> Some (7, Some tt).
 Proof. exact skip_verbatim_refuted. Qed.
 Print Assumptions C08_loop_before_the_repair_refuted.
+
+(* the decision itself, regenerated from src/context.rs :: should_format_node on every run: inside an
+   `ignore start` region, or behind an `ignore` comment, the verdict is Skip whatever the range says *)
+From SV Require FmAst ShouldFormat ShouldFormatProof.
+From SVgen Require ShouldFormat.
+Theorem C08_disabled_region_is_skipped : forall l r n, SVgen.ShouldFormat.should_format_node true l r n = FmAst.FormatNode_Skip.
+Proof. exact ShouldFormatProof.disabled_is_skip. Qed.
+Print Assumptions C08_disabled_region_is_skipped.
+Theorem C08_ignore_comment_is_skipped : forall r n, SVgen.ShouldFormat.should_format_node false (Some FmAst.FormatNode_Skip) r n = FmAst.FormatNode_Skip.
+Proof. exact ShouldFormatProof.ignore_comment_is_skip. Qed.
+Print Assumptions C08_ignore_comment_is_skipped.
+Theorem C08_everything_else_is_formatted : forall n, SVgen.ShouldFormat.should_format_node false None None n = FmAst.FormatNode_Normal.
+Proof. exact ShouldFormatProof.no_range_no_comment_is_normal. Qed.
+Print Assumptions C08_everything_else_is_formatted.
